@@ -119,6 +119,23 @@ Theorem C04_check_embedded_imex_sound : forall AI AE bI1 bE1 bI2 bE2 q tol,
 Proof. exact check_embedded_imex_sound. Qed.
 Print Assumptions C04_check_embedded_imex_sound.
 
+(* IMEX: the bivariate table really is the expansion of the IMEX stability function
+   R = 1 + zI bI.Y + zE bE.Y with Y = 1 + zI AI Y + zE AE Y (homogeneous parts + explicit remainder) *)
+Theorem C04_eval_table_is_power : forall n AI AE zI zE j i,
+  Hdeg n AI AE zI zE j i == mpow n (madd (mscal zI AI) (mscal zE AE)) j ones i.
+Proof. exact eval_table_is_power. Qed.
+Print Assumptions C04_eval_table_is_power.
+
+Theorem C04_imex_stability_expansion : forall n AI AE bI bE zI zE Y,
+  (forall i, Y i == 1 + (zI * mv n AI Y i + zE * mv n AE Y i)) ->
+  forall N,
+  1 + (zI * vdot n bI Y + zE * vdot n bE Y)
+  == bigsum (S N) (fun j => Cdeg n AI AE bI bE zI zE j)
+     + (zI * vdot n bI (mpow n (madd (mscal zI AI) (mscal zE AE)) N Y)
+        + zE * vdot n bE (mpow n (madd (mscal zI AI) (mscal zE AE)) N Y)).
+Proof. exact imex_stability_expansion. Qed.
+Print Assumptions C04_imex_stability_expansion.
+
 (* (6) the coefficient lists the check prints (and compares with the FFT of the real runs) are the
    formal Taylor coefficients of uend/u0 after k sweeps with the sweeper's actual QDelta matrices *)
 Theorem C04_dsdc_coefs_sound : forall Qm QDs w N (QDf : nat -> mat),
@@ -138,6 +155,24 @@ Theorem C04_dsdc_coefs_last_sound : forall Qm QDs N (QDf : nat -> mat),
   D2Q (nth j (nth k (dsdc_coefs_last Qm QDs N) []) d0) == sdc_coef_last n (mofl Qm) QDf k j.
 Proof. exact dsdc_coefs_last_sound. Qed.
 Print Assumptions C04_dsdc_coefs_last_sound.
+
+(* non-vacuity of the hypotheses of C04_order_gain: a concrete instance (M = 1 midpoint rule, implicit Euler
+   preconditioner, z = 1/2) satisfying all of them, with the conclusion *)
+Example C04_order_gain_instance :
+  let n := 1%nat in
+  let Qm : mat := fun _ _ => 1 # 2 in
+  let QD : nat -> mat := fun _ _ _ => 1 in
+  let z : Q := 1 # 2 in
+  let U : nat -> vec := fun k _ => (4 # 3) - (1 # 3) * zpow (- (1 # 2)) k in
+  let Uc : vec := fun _ => 4 # 3 in
+  let G : nat -> vec := fun k _ => - (2 # 3) * zpow (- (1)) k in
+  (forall k, lower_tri n (QD k)) /\ (forall k i, (i < n)%nat -> ~ 1 - z * QD k i i == 0) /\
+  veq (U 0%nat) ones /\ (forall k, is_sweep n Qm (QD k) z (U k) (U (S k))) /\ is_coll n Qm z Uc /\
+  (forall i, G 0%nat i == - mv n Qm Uc i) /\
+  (forall k i, (i < n)%nat -> G (S k) i - z * mv n (QD k) (G (S k)) i == mv n (msub Qm (QD k)) (G k) i) /\
+  (forall k i, (i < n)%nat -> U k i - Uc i == zpow z (S k) * G k i).
+Proof. exact order_gain_instance. Qed.
+Print Assumptions C04_order_gain_instance.
 
 (* non-vacuity: the explicit midpoint rule passes the order-2 validator with zero tolerance (and not order 3) *)
 Example C04_nonvacuous_validator :
